@@ -70,20 +70,21 @@ type FnVerifier struct {
 }
 
 type Frame struct {
-	v      *FnVerifier
-	fn     *ssa.Function
-	fc     *FuncContract
-	vals   map[ssa.Value]Val
-	prefix string
-	depth  int
-	outSt  map[*ssa.BasicBlock]*State
-	edges  map[[2]int]string // edge condition (including source reach)
-	loops  map[*ssa.BasicBlock]*loopInfo
-	exits  []exitInfo
-	top    bool
-	params map[string]Val
-	parent *Frame
-	entry  *State // pre-state of this activation (inlined callees: old() is relative to the call)
+	v        *FnVerifier
+	fn       *ssa.Function
+	fc       *FuncContract
+	vals     map[ssa.Value]Val
+	prefix   string
+	depth    int
+	outSt    map[*ssa.BasicBlock]*State
+	edges    map[[2]int]string // edge condition (including source reach)
+	loops    map[*ssa.BasicBlock]*loopInfo
+	exits    []exitInfo
+	top      bool
+	params   map[string]Val
+	parent   *Frame
+	curBlock *ssa.BasicBlock
+	entry    *State // pre-state of this activation (inlined callees: old() is relative to the call)
 }
 
 type exitInfo struct {
@@ -683,6 +684,7 @@ func (fr *Frame) backEdge(p *ssa.BasicBlock, h *ssa.BasicBlock, st *State, cond 
 
 func (fr *Frame) execBlock(b *ssa.BasicBlock, st *State) {
 	v := fr.v
+	fr.curBlock = b
 	for _, in := range b.Instrs {
 		if _, ok := in.(*ssa.Phi); ok {
 			continue
@@ -1322,7 +1324,7 @@ func (v *FnVerifier) strCodecFuns() (enc, dec, blen, slen string) {
 	ax := fmt.Sprintf("(forall ((s Str)) (! (and (= (%s (%s s)) s) (= (%s (%s s)) (%s s)) (>= (%s s) 0)) :pattern ((%s s))))", dec, enc, blen, enc, slen, slen, enc)
 	if !v.smt.ufs[ax] {
 		v.smt.ufs[ax] = true
-		v.smt.assert(ax)
+		v.smt.axiom(ax)
 		v.smt.note("string <-> []byte conversions are an exact inverse pair (content by blob identity)")
 	}
 	return
